@@ -165,6 +165,7 @@ def _audit_instance(ctx, rng, inst, settings, direction=None):
 def run(ctx):
     rng = ctx.rng
     ctx.lean = common.lean_check('C01')
+    common.run_regressions(ctx, 'C01', lambda r: recheck(r))
     quick = ctx.quick()
     structural(ctx, rng, 150 if quick else 600, all32=not quick)
     # targeted search: the instances on which model and implementation disagree are audited first, under several objectives
@@ -251,3 +252,6 @@ def replay(obj):
         print('re-audit:', why or 'ok')
         return 1 if why else 0
     return 1
+
+
+recheck = common.recheck_via_replay(replay)
